@@ -7,7 +7,9 @@
    header.Write; an independent walker logs the directory and the raw bytes; header.Read +
    ReadTableBytes read the file back.
 3. V: seeded random maps (random tags, up to 40 tables, longer data) and whole fonts written with
-   (*sfnt.Font).Write (also parsed by golang.org/x/image/font/sfnt) are recorded the same way.
+   (*sfnt.Font).Write (also parsed by golang.org/x/image/font/sfnt) are recorded the same way: the
+   corpus fonts and the fonts described by TLC from ContainerFonts.tla (units per em 16..16384, glyph
+   counts 1..1000, advances 0/1/32767, cmap codes U+0020/U+FFFF/astral, names absent/short/long).
 All recorded traces are judged by TLC against ContainerTrace.tla, which parses the raw bytes itself.
 A failed line is re-recorded in isolation and re-validated before it counts.
 """
@@ -23,7 +25,8 @@ MANIFEST = {
             "sets incl. nil entries, zero-length tables, with/without head; 3 scaler types; several physical orders) "
             "against the well-formedness clauses written from the OpenType specification and against the read-back "
             "round trip. Every map of the generation run, seeded random maps and whole corpus fonts are written by the "
-            "real header.Write / (*sfnt.Font).Write; TLC (ContainerTrace.tla) parses the produced bytes itself and "
+            "real header.Write / (*sfnt.Font).Write (corpus fonts plus a TLC-generated product over units per em, glyph count, "
+            "advance, cmap and name extremes, ContainerFonts.tla); TLC (ContainerTrace.tla) parses the produced bytes itself and "
             "accepts or rejects count, search fields, sorting, alignment, extents, overlap, checksums (32-bit "
             "wrap-around on 16-bit halves), head adjustment, the result of header.Read+ReadTableBytes, and the "
             "agreement of golang.org/x/image/font/sfnt with the written font value.",
@@ -268,6 +271,23 @@ def run(ctx):
             ctx.sample({"font_written": {k2: v for k2, v in e.items() if k2 not in ("file",)}})
     _judge(ctx, tr, "ContainerTrace: whole fonts", stats)
     os.remove(tr)
+
+    # 5. V: fonts described by TLC (ContainerFonts.tla): units per em, glyph count, advances, cmap and
+    #    names at their extremes; TLC itself checks (ASSUME Covers) that every value occurs in this run
+    fcfg = ("CONSTANTS\n  Shift = %d\n  Pairs = %s\nSPECIFICATION Spec\nINVARIANT InRange\nINVARIANT Emit\n"
+            "CHECK_DEADLOCK FALSE\n" % (ctx.seed % 6, "FALSE" if ctx.quick() else "TRUE"))
+    gen = ctx.tlc("ContainerFonts", cfg="CF.cfg", files={"CF.cfg": fcfg}, workers=1, timeout=600,
+                  label="ContainerFonts generation")
+    if gen.violated or len(gen.cases) < 18:
+        raise vlib.Infra("ContainerFonts produced %d font descriptions (%s)" % (len(gen.cases), gen.violated))
+    gpath = os.path.join(d, "genfonts.in")
+    vlib.write_ndjson(gpath, gen.cases)
+    ctx.sample({"tlc_font": gen.cases[-1]})
+    tr = os.path.join(d, "genfonts.ndjson")
+    ctx.run([binp, "genfonts", gpath, tr], timeout=900)
+    _judge(ctx, tr, "ContainerTrace: TLC-described fonts", stats)
+    os.remove(tr)
+    nfonts += len(gen.cases)
 
     ctx.cov["distinct_nontrivial"] = len(distinct) + nfonts
     ctx.cov["rule"] = ("distinct inputs of the real writer: maps enumerated by TLC + seeded random maps (distinct by "
